@@ -270,7 +270,7 @@ def judge_adversarial(ctx, j, rs, prefix):
     for t in (missing[:1] + heavy[:1]):
         calls += [{"op": "with", "vec": "V", "vals": list(t), "as": "c"}, {"op": "inc" if j["flavour"] != "histogram" else "observe", "obj": "c", "v": 1}]
     calls.append({"op": "collect", "obj": "V"})
-    ctx.violation(prefix + ":tuples-share-a-child", "%s vector with label names %s" + (" (through one LOCAL vector handle, flushed)" if j.get("local") else "") + ": %d distinct tuples were requested (positional form, then map form) and updated once each time; the vector holds %s children "
-                  "(min %s, max %s after the first pass); e.g. tuple %r has no child of its own and tuple %r was updated for it" % (
+    ctx.violation(prefix + ":tuples-share-a-child", ("%s vector with label names %s" + (" (through one LOCAL vector handle, flushed)" if j.get("local") else "") + ": %d distinct tuples were requested (positional form, then map form) and updated once each time; the vector holds %s children "
+                  "(min %s, max %s after the first pass); e.g. tuple %r has no child of its own and tuple %r was updated for it") % (
                       j["flavour"], names, n, s2.get("samples"), s1.get("min"), s1.get("max"), missing[:1], heavy[:1]), {"calls": calls})
     return False
